@@ -822,7 +822,10 @@ def adapt_typehints(
             val = object_path_serializer(val)
         elif not serialize and not isinstance(val, type):
             path = val
-            val = import_object(val)
+            try:
+                val = import_object(val)
+            except (ImportError, AttributeError) as ex:
+                raise_unexpected_value(f"Expected an import path corresponding to a {typehint}: {ex}", path, ex)
             if (typehint in {Type, type} and not isinstance(val, type)) or (
                 typehint not in {Type, type} and not is_subclass(val, subtypehints[0])
             ):
